@@ -24,13 +24,17 @@ Utf8(c) == IF c < 128 THEN <<c>>
 Bytes(s) == Concat([i \in 1..Len(s) |-> Utf8(s[i])])
 
 \* ---------- toy hash: four 15-bit polynomial hashes, rendered as 16 lowercase hex digits ----------
-CONSTANT Seed
+\* Wide = TRUE: a 48-byte digest (as SHA-384's): six such hashes with seeds Seed, Seed + 3, ... side by side, 96 hex digits
+CONSTANTS Seed, Wide
 RECURSIVE Poly(_, _, _, _, _)
 Poly(b, i, acc, m, p) == IF i > Len(b) THEN acc ELSE Poly(b, i + 1, (acc * m + b[i]) % p, m, p)
 Hex4(v) == <<HexD(v \div 4096), HexD((v \div 256) % 16), HexD((v \div 16) % 16), HexD(v % 16)>>
+H8(b, sd) ==
+  Hex4(Poly(b, 1, 7 + sd, 31, 32749)) \o Hex4(Poly(b, 1, 11 + sd, 37, 32719))
+  \o Hex4(Poly(b, 1, 13 + sd, 41, 32717)) \o Hex4(Poly(b, 1, 17 + sd, 43, 32713))
 Hash(s) == LET b == Bytes(s) IN
-  Hex4(Poly(b, 1, 7 + Seed, 31, 32749)) \o Hex4(Poly(b, 1, 11 + Seed, 37, 32719))
-  \o Hex4(Poly(b, 1, 13 + Seed, 41, 32717)) \o Hex4(Poly(b, 1, 17 + Seed, 43, 32713))
+  IF Wide THEN H8(b, Seed) \o H8(b, Seed + 3) \o H8(b, Seed + 6) \o H8(b, Seed + 9) \o H8(b, Seed + 12) \o H8(b, Seed + 15)
+  ELSE H8(b, Seed)
 
 \* ---------- canonical N-Quads ----------
 \* term = [k |-> "i", v |-> cps] | [k |-> "b", v |-> cps] | [k |-> "l", lex, dt, lang] | [k |-> "d"]
